@@ -102,7 +102,7 @@ fn survivors(text: &[&str], defined: &[char]) -> Result<Vec<Vec<usize>>, String>
 }
 
 pub fn run() -> i32 {
-    let mut rep = Report::new("preproc", "conditionals with <= 3 sections (if/elif/elif) + optional else over 6 conditions, bodies from a family of 8 blocks incl. one nested level, x 4 external symbol sets; plus two-file isolation cases");
+    let mut rep = Report::new("preproc", "conditionals with <= 3 sections (if/elif/elif) + optional else over 6 conditions, bodies from a family of 8 blocks incl. one nested level, and every subset of the sections EMPTY, x 4 external symbol sets; two-file isolation: first file = every sequence of <= 3 #define/#undef over 3 symbols; 56 malformed / unbalanced directive forms (every operator spelling over {&,|} of length <= 3) and 5 well-formed controls x 3 symbol sets");
     let conds = [Cond::A, Cond::NotA, Cond::B, Cond::AandB, Cond::AorB, Cond::NotAorB];
     let ext: [&[char]; 4] = [&[], &['A'], &['B'], &['A', 'B']];
     let mut programs: Vec<Vec<Item>> = vec![];
@@ -133,6 +133,28 @@ pub fn run() -> i32 {
             }
         }
     }
+    // sections with EMPTY bodies (a directive immediately followed by the next one): every subset of the sections of an
+    // if / elif / elif [/ else] is emptied; an empty section that is selected still ends the search
+    for (i1, c1) in conds.iter().enumerate() {
+        for (i2, c2) in conds.iter().enumerate() {
+            for c3 in [Cond::B, Cond::AorB, Cond::NotA] {
+                for nelif in 1..=2usize {
+                    for els in [false, true] {
+                        for empty in 1u32..(1 << (nelif + 1 + els as usize)) {
+                            let mut n = 0usize;
+                            let mut body = |k: u32, n: &mut usize| if empty & (1 << k) != 0 { vec![] } else { block(1 + ((i1 + i2 + k as usize) % 2) * 3, n) };
+                            let mut secs = vec![(*c1, body(0, &mut n)), (*c2, body(1, &mut n))];
+                            if nelif == 2 { secs.push((c3, body(2, &mut n))); }
+                            let e = if els { Some(body(nelif as u32 + 1, &mut n)) } else { None };
+                            let mut p = vec![Item::If(secs, e), Item::Def(900)];
+                            p.push(Item::If(vec![(Cond::B, vec![Item::Def(901)])], Some(vec![Item::Def(902)])));
+                            programs.push(p);
+                        }
+                    }
+                }
+            }
+        }
+    }
     for p in &programs {
         let mut text = String::new();
         render(p, &mut text);
@@ -147,19 +169,53 @@ pub fn run() -> i32 {
             }
         }
     }
-    // isolation: #define / #undef take effect only within their own file
-    let first = ["#define A\nstruct S1 {}\n", "#undef B\nstruct S1 {}\n", "#if A\n#define B\n#endif\nstruct S1 {}\n"];
-    let second = "#if A\nstruct S2 {}\n#endif\n#if B\nstruct S3 {}\n#else\nstruct S4 {}\n#endif\n";
-    for f in first {
+    // isolation: #define / #undef take effect only within their own file. First file: EVERY sequence of <= 3 directives over
+    // {#define, #undef} x {A, B, C} (so also the balanced ones that leave the NUMBER of symbols unchanged); the second file
+    // must see exactly the external symbols
+    let second = "#if A\nstruct S2 {}\n#endif\n#if B\nstruct S3 {}\n#else\nstruct S4 {}\n#endif\n#if C\nstruct S5 {}\n#endif\n";
+    let dirs: Vec<String> = ["#define", "#undef"].iter().flat_map(|d| ['A', 'B', 'C'].iter().map(move |c| format!("{d} {c}\n"))).collect();
+    let mut firsts: Vec<String> = vec!["#if A\n#define B\n#endif\n".to_owned(), "#if !A\n#undef B\n#define C\n#endif\n".to_owned()];
+    for a in &dirs { firsts.push(a.clone()); for b in &dirs { firsts.push(format!("{a}{b}")); for c in &dirs { firsts.push(format!("{a}{b}{c}")); } } }
+    for f in &firsts {
+        let f = format!("{f}struct S1 {{}}\n");
         for e in ext {
             let syms: HashSet<char> = e.iter().cloned().collect();
             let mut want2 = vec![];
             if syms.contains(&'A') { want2.push(2); }
             if syms.contains(&'B') { want2.push(3); } else { want2.push(4); }
-            rep.case(true, || format!("two files {:?}", e));
-            match survivors(&[f, second], e) {
+            rep.case(true, || format!("two files {:?} first {:?}", e, f));
+            match survivors(&[&f, second], e) {
                 Err(m) => rep.counterexample(&format!("-D{e:?} file1={f:?} file2={second:?}"), &format!("file2 -> {want2:?}"), &m),
-                Ok(got) => if got.len() != 2 || got[1] != want2 { rep.counterexample(&format!("-D{e:?} file1={f:?} file2={second:?}"), &format!("file2 -> {want2:?}"), &format!("{got:?}")); },
+                Ok(got) => if got.len() != 2 || got[1] != want2 { rep.counterexample(&format!("-D{e:?} file1={f:?} file2={second:?}"), &format!("file2 -> {want2:?} (only the symbols given on the command line)"), &format!("{got:?}")); },
+            }
+        }
+    }
+    // malformed or unbalanced directives are reported as syntax errors, not silently ignored; the well-formed controls are accepted
+    // (slicec's dialect allows `!` only in front of a whole expression or a parenthesised term: `A && !B` is itself a syntax error,
+    // `A && (!B)` is the accepted spelling -- DESIGN.md section 8, observations)
+    let mut forms: Vec<(String, bool)> = vec![];
+    for op in ["&", "|", "&&", "||", "&|", "|&", "&&&", "|||", "&&|", "||&", "&||", "|&&", "&|&", "|&|"] {
+        forms.push((format!("#if A {op} B\nstruct S1 {{}}\n#endif\n"), op == "&&" || op == "||"));
+        forms.push((format!("#if A\n#elif (A {op} (!B))\nstruct S1 {{}}\n#endif\n"), op == "&&" || op == "||"));
+    }
+    for (t, ok) in [
+        ("#if\n#endif\n", false), ("#if !\n#endif\n", false), ("#if A B\n#endif\n", false), ("#if (A\n#endif\n", false), ("#if A)\n#endif\n", false),
+        ("#if A &&\n#endif\n", false), ("#if && A\n#endif\n", false), ("#if A || || B\n#endif\n", false), ("#if ()\n#endif\n", false),
+        ("#elif A\n#endif\n", false), ("#else\n#endif\n", false), ("#endif\n", false), ("#if A\n", false), ("#if A\n#else\n#else\n#endif\n", false),
+        ("#if A\n#else\n#elif B\n#endif\n", false), ("#define\n", false), ("#define A B\n", false), ("#undef\n", false), ("#foo\n", false), ("#if A\n#endif B\n", false),
+        ("#else A\n", false), ("#if 1\n#endif\n", false), ("#if A &&\n B\n#endif\n", false),
+        ("#if A\n#endif\n", true), ("#if !(A || B) && (!A)\n#endif\n", true), ("  #  if A // c\n#   endif\n", true), ("#define A\n#undef A\n", true), ("#if A\n#elif B\n#else\n#endif\n", true),
+    ] { forms.push((t.to_owned(), ok)); }
+    for (t, ok) in &forms {
+        for e in [&[][..], &['A'][..], &['A', 'B'][..]] {
+            let text = format!("module M\n{t}struct Z {{}}\n");
+            let mut options = SliceOptions::default();
+            options.defined_symbols = e.iter().map(|c| c.to_string()).collect();
+            rep.case(!ok, || format!("{:?} -D{:?}", t, e));
+            let t2 = text.clone();
+            match std::panic::catch_unwind(move || slicec::compile_from_strings(&[&t2], Some(&options)).diagnostics.has_errors()) {
+                Err(_) => rep.counterexample(&format!("-D{e:?} {text:?}"), "a verdict", "PANIC"),
+                Ok(errs) => if errs == *ok { rep.counterexample(&format!("-D{e:?} {text:?}"), if *ok { "accepted: the directives are well-formed" } else { "a syntax error: the directive is malformed or unbalanced" }, if errs { "rejected" } else { "accepted silently" }); },
             }
         }
     }
